@@ -22,6 +22,7 @@ def run_property(pid, tier, seed):
     spec = PROPERTIES[pid]
     configs = ['default'] if tier == 'quick' else spec.get('thorough_configs', ['default', 'dev', 'release', 'nosync'])
     all_results = []
+    failed_rules = []
     cfg_info = []
     fixtures_results = None
     for cfg in configs:
@@ -46,13 +47,18 @@ def run_property(pid, tier, seed):
                     ctx.cache[rk] = e
             res = ctx.cache[rk]
             if isinstance(res, Exception):
-                raise res
+                # this rule cannot give a verdict; the others still can (a violation they find is reported, the failure is listed with it)
+                failed_rules.append((getattr(rule, '__name__', str(rule)), cfg, res))
+                continue
             res.config = cfg
             all_results.append(res)
     # fixtures: every rule of this property that has a bad fixture must fire on it
     fx = spec.get('fixtures')
     if fx:
         fixtures_results = fx(tier)
+    if failed_rules and not any(r_.violations for r_ in all_results):
+        raise failed_rules[0][2]
+    run_property.failed = failed_rules
     return all_results, cfg_info, fixtures_results, time.time() - t0
 
 
@@ -153,6 +159,8 @@ def check_one(pid, args):
     # ---- output
     for r in results:
         print('[%s/%s] %s: %d instance(s), %d violation(s)' % (pid, getattr(r, 'config', 'default'), r.rule, len(r.instances), len(r.violations)))
+    for rn_, cfg_, ex_ in getattr(run_property, 'failed', []):
+        print('[%s/%s] %s: no verdict (%s)' % (pid, cfg_, rn_, str(ex_)[:160]))
     for v in known_hit:
         kf = known_keys[v.key]
         print('KNOWN-FINDING: property=%s %s -- %s' % (pid, v.key, kf.get('what', v.message)))
